@@ -14,7 +14,7 @@ cd $WT || exit 2
 git checkout -q -- . ; rm -f $CRATE/tests/seeded_demo.rs
 mkdir -p $CRATE/tests && cp $S/demo.rs $CRATE/tests/seeded_demo.rs
 PKG=$(cd $CRATE && grep -m1 '^name' Cargo.toml | sed 's/.*"\(.*\)".*/\1/')
-run_demo() { cargo test --offline -p $PKG --test seeded_demo 2>&1 | grep -E "^test result|error(\[|:)|overflowed its stack" | head -3; }
+run_demo() { cargo test --offline -p $PKG --test seeded_demo 2>&1 | grep -E "^test result|^error(\[|:)|overflowed its stack" | head -3; }
 echo "--- clean tree: demo"; CLEAN=$(run_demo); echo "$CLEAN"
 git apply $S/patch.diff || { echo "PATCH DOES NOT APPLY"; rm -f $CRATE/tests/seeded_demo.rs; exit 2; }
 echo "--- patched: demo"; PATCHED=$(run_demo); echo "$PATCHED"
